@@ -81,10 +81,13 @@ var tokRe = regexp.MustCompile(`\s+|@?[A-Za-z_][A-Za-z0-9_]*|'(?:[^'\\\n]|\\.)*'
 var stray = []string{"@lexer", "@parser", "@start", "@mode", "@macro", "@frag", "@external", "@emit(", "@push_mode(", "@pop_mode", "@discard", "@left(", "@right(", "@list(", "@error", "@empty", "@frog",
 	"{", "}", "(", ")", "[", "]", "'", "''", "|", "=", "\\", "\\\n", "~", "-", "?", "*", "+", "*?", "+?", "*!", ",", ".", "0", "99999999999999999999", "-1", "//", "\x00", "\xff", "\xc0\x20", "\u2028", "EOF", "ERROR", "A__B", "a_", "\n", "\n\n", "\r\n", "\t"}
 
+var declRe = regexp.MustCompile(`(?m)^\s*(?:@macro\s+|@start\s+)?([A-Za-z_][A-Za-z0-9_]*)\s*=`)
+var identRe = regexp.MustCompile(`\b[A-Za-z][A-Za-z0-9_]*\b`)
+
 func mutate(rt *rapid.T, text string, other string) string {
 	toks := tokRe.FindAllString(text, -1)
 	lines := strings.SplitAfter(text, "\n")
-	switch ri(rt, 0, 12, "mut") {
+	switch ri(rt, 0, 14, "mut") {
 	case 0: // delete a token
 		if len(toks) > 0 {
 			i := ri(rt, 0, len(toks)-1, "i")
@@ -149,6 +152,37 @@ func mutate(rt *rapid.T, text string, other string) string {
 		i := ri(rt, 0, len(lines), "i")
 		long := "LONG" + fmt.Sprint(i) + " = " + strings.Repeat("'ab' | ", ri(rt, 200, 3000, "rep")) + "'c'\n"
 		return strings.Join(lines[:i], "") + long + strings.Join(lines[i:], "")
+	case 13: // rewire a reference: an identifier in a body is replaced by another declared name
+		// (cycles, self references, forward references, names of the wrong kind - syntax stays valid)
+		var names []string
+		for _, m := range declRe.FindAllStringSubmatch(text, -1) {
+			names = append(names, m[1])
+		}
+		locs := identRe.FindAllStringIndex(text, -1)
+		if len(names) > 0 && len(locs) > 0 {
+			l := locs[ri(rt, 0, len(locs)-1, "loc")]
+			return text[:l[0]] + names[ri(rt, 0, len(names)-1, "name")] + text[l[1]:]
+		}
+	case 14: // a family of macros referring to each other in a random graph (cycles with tails,
+		// declared in any order), one of them used by a token
+		n := ri(rt, 2, 4, "nmac")
+		var decl []string
+		for i := 0; i < n; i++ {
+			body := "'q" + fmt.Sprint(i) + "'"
+			for k, nk := 0, ri(rt, 1, 2, "nref"); k < nk; k++ {
+				body += []string{" ", " | ", "? ", "* "}[ri(rt, 0, 3, "op")] + fmt.Sprintf("ZM%d", ri(rt, 0, n-1, "ref"))
+			}
+			decl = append(decl, fmt.Sprintf("@macro ZM%d = %s\n", i, body))
+		}
+		decl = append(decl, fmt.Sprintf("ZMTOK = 'zm' ZM%d\n", ri(rt, 0, n-1, "use")))
+		decl = rapid.Permutation(decl).Draw(rt, "order")
+		block := strings.Join(decl, "")
+		if i := strings.Index(text, "@lexer"); i >= 0 {
+			if j := strings.IndexByte(text[i:], '\n'); j >= 0 {
+				return text[:i+j+1] + block + text[i+j+1:]
+			}
+		}
+		return text + "\n@lexer\n" + block
 	default: // raw bytes
 		i := ri(rt, 0, len(text), "i")
 		b := []string{"\x00", "\xff", "\xc0\x20", "\xe2\x82", "\xf4\x90\x80\x80", "\xed\xa0\x80"}[ri(rt, 0, 5, "b")]
